@@ -524,6 +524,8 @@ class ExprMixin:
                 else:
                     out.append((s2, SStr(val)))
             return out
+        if isinstance(o, SOpaque) and o.kind == 'commands':
+            return [(st, SOpaque(None, 'parser'))]
         if isinstance(o, SOpaque) and o.kind in ('s3page', 's3file', 's3obj'):
             return self.s3_getitem(st, o, key, e)
         raise ToolLimit('subscript of %r' % (o,))
